@@ -2,6 +2,7 @@ import QuantemModel.Lemmas.Radon
 import QuantemModel.Lemmas.RadonLinear
 import QuantemModel.Lemmas.RadonPad
 import QuantemModel.Lemmas.RadonSymmetry
+import QuantemModel.Lemmas.RadonLists
 /-!
 C07 — the torch Radon transform / filtered back-projection (Model/Radon.lean: `radonTorch*`,
 `fourierFilterTorch`, `iradonTorch`) is the same real function as the scikit-image reference
@@ -60,6 +61,16 @@ transform returned 0 where scikit-image (and the column sum) give 1. -/
 theorem radon_legacy_counterexample :
     radonLegacyAt pin 2 (0 : ℝ) 1 = 0 ∧ radonSkAt (masked pin 2) 2 (0 : ℝ) 1 = 1 :=
   radon_legacy_counter
+
+/-- **radon_agree_list**: the two executables the driver runs agree on list images — the whole
+sinogram `[angles][N]` of radon_torch on `img` is scikit-image's sinogram of the disc-masked
+image, for every size `N ≥ 2` and every angle list. -/
+theorem radon_agree_list (img : List (List ℝ)) (hN : 2 ≤ img.length) (thetas : List ℝ) :
+    radonTorch img thetas = radonSk (maskImg img) thetas :=
+  radonTorch_eq_radonSk img hN thetas
+
+example : radonTorch [[0, 1], [2, 3]] [0, (45 : ℝ)] = radonSk (maskImg [[0, 1], [2, 3]]) [0, 45] :=
+  radon_agree_list _ (by simp) _
 
 /-! ## 1b. Symmetries of the transform -/
 
@@ -201,6 +212,17 @@ theorem radon_sk_linear (f g : Int → Int → ℝ) (a b : ℝ) (N : Nat) (θ : 
     radonSkAt (fun i j => a * f i j + b * g i j) N θ x
       = a * radonSkAt f N θ x + b * radonSkAt g N θ x :=
   radonSkAt_linear f g a b N θ x
+
+/-- **radon_linear_list**: radon_torch is linear on list images of equal shape (whole
+sinograms, every angle list) … -/
+theorem radon_linear_list (a b : ℝ) (X Y : List (List ℝ)) (h : SameShape X Y) (thetas : List ℝ) :
+    radonTorch (linRows a b X Y) thetas = linRows a b (radonTorch X thetas) (radonTorch Y thetas) :=
+  radonTorch_linear a b X Y h thetas
+
+/-- … and so is the reference. -/
+theorem radon_sk_linear_list (a b : ℝ) (X Y : List (List ℝ)) (h : SameShape X Y) (thetas : List ℝ) :
+    radonSk (linRows a b X Y) thetas = linRows a b (radonSk X thetas) (radonSk Y thetas) :=
+  radonSk_linear a b X Y h thetas
 
 /-- **filter_step_linear**: the FFT filtering step `real(ifft(fft(pad row) * filter))[:N]` is
 linear on detector rows of equal length, for every filter list and every padded size. -/
